@@ -6,6 +6,16 @@ VERIF = os.path.dirname(HERE)
 ALL = ["C%02d" % i for i in range(1, 19)]
 
 CLAIMS = {
+    "C14": dict(
+        text=("Rocq proof: for page names without '[', ']' and '#', the two successive str.replace calls of "
+              "run_file_rename equal the one-pass reading of the property on every text (each [[A]] -> [[B]], each "
+              "[[A# -> [[B#, every other character copied; unbounded text, induction on length with three "
+              "non-interference lemmas), and a text without '[[A' is untouched. Tied to the code by running the real "
+              "`zorg file rename` on generated directories and comparing every file byte-for-byte with model and spec."),
+        note=("Trusted: Coq kernel; extraction; harness. Path.rename / rglob are modelled as a map over the listing; "
+              "names relative to the zettel dir. An unterminated '[[A#' is read as the start of an anchored link."),
+        technique="Rocq proof (string-level refinement of two replaces to a one-pass scanner) + byte-exact correspondence",
+        design="§5 C14"),
     "C07": dict(
         text=("Rocq proof over the model of _get_next_id / ZIDManager.get_next / is_zid with the excluded characters "
               "and both lexer grammars REGENERATED from /repo on every run: no ZID is returned twice in any history of "
